@@ -417,7 +417,15 @@ pub fn gen_group(r: &mut Rng) -> (String, usize) {
         }
         2 | 3 => {
             let t = *r.pick(&["38", "48", "58"]);
-            let (a, b, c) = (r.below(256), r.below(256), r.below(256));
+            // channels biased to the values that also mean something as codes (0 = reset, 1 = bold, 5, 2) and to an empty field
+            let ch = |r: &mut Rng| -> String {
+                match r.below(8) {
+                    0 => "0".to_string(),
+                    1 => (*r.pick(&["", "1", "2", "5", "00", "255"])).to_string(),
+                    _ => r.below(256).to_string(),
+                }
+            };
+            let (a, b, c) = (ch(r), ch(r), ch(r));
             if r.chance(1, 2) { (format!("{t};2;{a};{b};{c}"), 5) } else { (format!("{t}:2:{a}:{b}:{c}"), 1) }
         }
         4 => (format!("4:{}", r.below(6)), 1),
